@@ -5,8 +5,8 @@ ROOT = os.path.dirname(os.path.dirname(os.path.abspath(__file__)))
 REPO = os.environ.get("VERIF_REPO", "/repo")
 SPEC = os.path.join(ROOT, "spec")
 HARNESS = os.path.join(ROOT, "harness")
-EVID = os.path.join(ROOT, "evidence")
-FOUND = os.path.join(ROOT, "replays", "found")
+EVID = os.environ.get("VERIF_EVID_DIR") or os.path.join(ROOT, "evidence")
+FOUND = os.path.join(os.environ.get("VERIF_EVID_DIR") or os.path.join(ROOT, "replays"), "found")
 
 
 class Infra(Exception):
@@ -49,13 +49,22 @@ class Run:
     # ---------------------------------------------------------------- Go harness
     def build(self, cmd, race=False, tags="verif"):
         """go build ./cmd/<cmd> against the current /repo tree; returns the binary path."""
-        shutil.copyfile(os.path.join(REPO, "go.sum"), os.path.join(HARNESS, "go.sum"))
+        hdir = HARNESS
+        if os.path.realpath(REPO) != "/repo":
+            # development aid (mutant sweeps on scratch copies of the repository): build a private copy of the
+            # harness whose replace directive points at $VERIF_REPO. Registered commands always use /repo.
+            hdir = os.path.join(self.tmp, "harness")
+            if not os.path.isdir(hdir):
+                shutil.copytree(HARNESS, hdir, ignore=shutil.ignore_patterns("bin"))
+                gm = open(os.path.join(hdir, "go.mod")).read().replace("=> /repo", "=> " + os.path.realpath(REPO))
+                open(os.path.join(hdir, "go.mod"), "w").write(gm)
+        shutil.copyfile(os.path.join(REPO, "go.sum"), os.path.join(hdir, "go.sum"))
         out = os.path.join(self.tmp, cmd + ("-race" if race else ""))
         args = ["go", "build", "-tags", tags, "-o", out]
         if race:
             args.insert(2, "-race")
         args.append("./cmd/" + cmd)
-        p = subprocess.run(args, cwd=HARNESS, env=goenv(), capture_output=True, text=True, timeout=1500)
+        p = subprocess.run(args, cwd=hdir, env=goenv(), capture_output=True, text=True, timeout=1500)
         if p.returncode != 0:
             raise Infra("harness build failed:\n" + p.stdout + p.stderr)
         return out
